@@ -153,7 +153,8 @@ class DuplicateKernel(Transformation):
         """
         call_map = {}
         for call in FindNodes(ir.CallStatement).visit(new_item.ir.body):
-            call_name = str(call.name).lower()
+            # Use the name in the defining scope (resolves renaming upon import)
+            call_name = str(getattr(call.name.type, 'use_name', None) or call.name).lower()
             new_call_name = f'{call_name}{self.suffix}'.lower()
             if new_call_name in new_dependencies:
                 call_new_item = new_dependencies[new_call_name]
@@ -163,7 +164,12 @@ class DuplicateKernel(Transformation):
         imp_map = {}
         for imp in FindNodes(ir.Import).visit(new_item.ir.spec):
             # potentially new symbols
-            symbol_map = {symbol: symbol.clone(name=f'{symbol.name}{self.suffix}') for symbol in imp.symbols}
+            symbol_map = {
+                symbol: symbol.clone(
+                    name=f'{symbol.type.use_name}{self.suffix}', type=symbol.type.clone(use_name=None)
+                ) if symbol.type.use_name else symbol.clone(name=f'{symbol.name}{self.suffix}')
+                for symbol in imp.symbols
+            }
             new_symbols = ()
             orig_symbols = ()
             # distinguish imported symbols that should remain and those which should be altered
